@@ -8,6 +8,7 @@ REQ_CHEAP = [1, 3, 5, 6, 7, 8, 9, 11, 12, 13, 14]
 RES_CHEAP = [1, 5, 6, 8, 9, 10]
 def obligations(tier):
     obs = txobs.hist_all(tier, 'quick') + txobs.complete_all('quick')
+    obs += [o for o in __import__('C09').obligations(tier) if o.name == 'close.sticky']      # no callbacks after a STOP, also not through close
     obs += [so.req_step(s, n=4) for s in REQ_CHEAP] + [so.res_step(s, n=4) for s in RES_CHEAP] + [so.res_step(4, n=4)]
     if tier == 'thorough':
         obs += [so.req_step(s, n=4, tier='thorough') for s in so.REQ_STATES if s not in REQ_CHEAP] + [so.res_step(s, n=(3 if s == 3 else 4), tier='thorough') for s in (2, 3, 7)]
